@@ -206,6 +206,59 @@ pub fn generate(g: &mut Gen, thorough: bool) {
             true,
         );
     }
+    // 1a. the spellings of a one-way step inside the body of a macro: sugar, modifier in front, modifier behind - the
+    // same macro, as a step of an enclosing pipeline, in both directions
+    {
+        let bodies = [
+            ("s:post", "addone | helmert x=3 omit_inv"), ("s:pre", "addone | omit_inv helmert x=3"), ("s:sugar", "addone > helmert x=3"), ("s:spelled", "addone | helmert x=3 omit_inv=true"),
+            ("t:post", "helmert x=3 omit_fwd | addone"), ("t:pre", "omit_fwd helmert x=3 | addone"), ("t:sugar", "< helmert x=3 | addone"), ("t:lines", "helmert x=3 omit_fwd # one way\n| addone"),
+        ];
+        let res: Vec<(String, String)> = bodies.iter().map(|(n, b)| (n.to_string(), b.to_string())).collect();
+        let pts = crate::wire::data_of(&[[1.0, 2.0, 3.0, 4.0], [0.25, -0.5, 10.0, 2020.0]]);
+        for (name, _) in bodies {
+            let (f_seq, i_seq): (Vec<&str>, Vec<&str>) = if name.starts_with("s:") {
+                (vec!["addone", "addone | helmert x=3"], vec!["addone", "addone"])
+            } else {
+                (vec!["addone", "addone"], vec!["addone", "helmert x=3 | addone"])
+            };
+            for (inv, outer_f, outer_i) in [(format!("addone | {name}"), f_seq.clone(), i_seq.clone())] {
+                for dir in ["F", "I"] {
+                    let seq = if dir == "F" { &outer_f } else { &outer_i };
+                    let mut f = vec!["S_C04F".to_string(), res.len().to_string()];
+                    for (n, b) in &res {
+                        f.push(crate::wire::escape(n));
+                        f.push(crate::wire::escape(b));
+                    }
+                    f.push(crate::wire::escape(&inv));
+                    f.push(dir.to_string());
+                    f.push(seq.len().to_string());
+                    for sdef in seq.iter() {
+                        f.push(crate::wire::escape(sdef));
+                    }
+                    f.push(pts.clone());
+                    g.push(f.join("\t"), "oracle-one-way-spellings-in-macro-bodies", true);
+                    g.push(super::op_line("default", &res, &[], &inv, "apply", dir, &pts), "model-one-way-spellings-in-macro-bodies", true);
+                }
+            }
+        }
+    }
+    // 1c. the last of repeated keys wins, whatever the spellings of the occurrences (key=value, bare flag, `=true`)
+    {
+        let data = super::probe_data(2);
+        for (a, b) in [
+            ("helmert x=1 x=2", "helmert x=2"), ("helmert x=3 x", "helmert x"), ("helmert x x=3", "helmert x=3"), ("helmert x=1 y=2 x=5", "helmert y=2 x=5"),
+            ("addone inv=false inv", "addone inv"), ("inv addone inv=false", "addone inv"), ("addone inv inv=false", "addone inv=false"), ("addone inv=true inv=false inv", "addone inv"),
+            ("utm zone=32 zone=33", "utm zone=33"), ("cart ellps=intl ellps=GRS80", "cart ellps=GRS80"), ("cart ellps=GRS80 ellps", "cart ellps"), ("helmert exact=false exact rx=1", "helmert exact rx=1"),
+            ("addone | helmert x=1 omit_fwd=false omit_fwd", "addone | helmert x=1 omit_fwd"), ("addone | helmert x=1 omit_fwd omit_fwd=false", "addone | helmert x=1"),
+            ("helmert translation=1,2,3 translation=4,5,6", "helmert translation=4,5,6"), ("axisswap order=2,1 order=1,2", "axisswap order=1,2"),
+            ("latitude geocentric=false geocentric", "latitude geocentric"), ("utm zone=32 south=false south", "utm zone=32 south"), ("utm zone=32 south south=false", "utm zone=32 south=false"),
+        ] {
+            g.push(format!("S_C16R\t{}\t{}\t{}", crate::wire::escape(a), crate::wire::escape(b), data), "oracle-last-of-repeated-keys", true);
+            for d in [a, b] {
+                g.push(super::op_line("default", &[], &[], d, "both", "F", &data), "model-last-of-repeated-keys", true);
+            }
+        }
+    }
     // 1b. definitions of one step that are not pipelines (no separator at all), laid out as freely
     for _ in 0..(if thorough { 3000 } else { 300 }) {
         let w: World = make_world(&mut g.rng, 2);
